@@ -915,7 +915,8 @@ def module_model(name):
     if name == 'logging':
         return ModuleVal('logging', {'getLogger': Builtin(lambda I, *a, **k: None, 'logging.getLogger')})
     if name == 'time':
-        return ModuleVal('time', {'time': Builtin(lambda I: fresh_real('time'), 'time.time')})
+        return ModuleVal('time', {'time': Builtin(lambda I: fresh_real('time'), 'time.time'),
+                                  'asctime': Builtin(lambda I, *a: '<time>', 'time.asctime')})
     if name == 'itertools':
         return ModuleVal('itertools', {})
     if name == 'math':
